@@ -362,6 +362,9 @@ let parse_audit (obs : string) =
            d_lsz = (let l = get "lsz" in if l = "" then []
                     else List.map (fun s -> z_of_int (int_of_string s)) (Stdlib.String.split_on_char ',' l)) }
 
+(* ---- C06 / C07: the counter array (Counter.cstep) ---- *)
+let ctrs : (string, ctr) Hashtbl.t = Hashtbl.create 7
+
 (* ---- C06: node-level store machine (RefStore.sstep / observe) ---- *)
 let rstore = ref st_init
 let rnames : (string, int) Hashtbl.t = Hashtbl.create 31
@@ -785,6 +788,25 @@ let rec run toks =
       | _ -> raise Unsupported in
     let t = apply1 (szf fr) g fa.rule fr.rule l O ta in
     set_edge r fn t; show r
+  | "ctr" :: "new" :: c :: _ ->
+    Hashtbl.replace ctrs c ctr_init; emit "ctr bits=8 vals="
+  | "ctr" :: "del" :: c :: _ -> Hashtbl.remove ctrs c
+  | "ctr" :: op :: c :: rest ->
+    let st = try Hashtbl.find ctrs c with Not_found -> raise Unsupported in
+    let arg n = int_of_string (List.nth rest n) in
+    let st' = match op with
+      | "inc" | "dec" ->
+        let i = nat_of_int (arg 0) in
+        let k = if List.length rest > 1 then arg 1 else 1 in
+        let r = ref st in
+        for _ = 1 to k do r := cstep !r (if op = "inc" then CInc i else CDec i) done;
+        !r
+      | "exp" -> cstep st (CExp (nat_of_int (arg 0)))
+      | "shr" -> cstep st (CShr (nat_of_int (arg 0)))
+      | _ -> raise Unsupported in
+    Hashtbl.replace ctrs c st';
+    emit (Printf.sprintf "ctr bits=%d vals=%s" (int_of_z st'.cw)
+            (Stdlib.String.concat "," (List.map (fun v -> string_of_int (int_of_z v)) st'.cdat)))
   | "nnew" :: x :: fn :: lvl :: cs ->
     ignore (get_forest fn);
     let resolve c =
